@@ -183,6 +183,25 @@ fn semhl(req: &Value) -> Value {
     }
 }
 
+/// ide::module_name(root, path) on absolute unix paths given as strings
+fn modname(req: &Value) -> Value {
+    let root = std::path::PathBuf::from(req["root"].as_str().unwrap());
+    let out: Vec<Value> = req["paths"]
+        .as_array()
+        .unwrap()
+        .iter()
+        .map(|p| {
+            let path = std::path::PathBuf::from(p.as_str().unwrap());
+            match panic::catch_unwind(|| ide::module_name(&root, &path)) {
+                Ok(Some(n)) => json!(n.as_str()),
+                Ok(None) => Value::Null,
+                Err(_) => json!({"panic": true}),
+            }
+        })
+        .collect();
+    json!({"modname": out})
+}
+
 fn main() {
     panic::set_hook(Box::new(|_| {}));
     let stdin = std::io::stdin();
@@ -205,6 +224,7 @@ fn main() {
             "sighelp" => sighelp(&req),
             "highlight" => highlight(&req),
             "semhl" => semhl(&req),
+            "modname" => modname(&req),
             _ => json!({"error": "unknown command"}),
         });
         let out = match res {
